@@ -41,12 +41,12 @@ def run(ctx):
         fn = rt.FUNCS[name]
         for _ in range(ctx.n(40, 600)):
             p = fn.gen(ctx.rng)
-            seed = ctx.rng.randint(0, 2**31)
+            seed = ctx.rng.choice([0, 0, 1, 2**31 - 1, 2**40 + 7]) if ctx.rng.random() < 0.3 else ctx.rng.randint(0, 2**31)
             det = {"call": name, "params": p, "seed": seed}
             arrays = lambda: {k: np.array(v) for k, v in p.items() if isinstance(v, list) and k in ("x", "y", "group", "cond", "resp", "g1", "g2")}
             np.random.seed(ctx.rng.randint(0, 10**6))
             st0 = np.random.get_state()[1].copy()
-            r1, _ = call_on(name, p, arrays(), seed)
+            r1, _ = call_on(name, p, arrays(), seed if ctx.rng.random() < 0.7 else np.int64(seed))
             touched = not np.array_equal(np.random.get_state()[1], st0)
             np.random.seed(ctx.rng.randint(0, 10**6)); np.random.random(ctx.rng.randint(0, 5))
             if ctx.rng.random() < 0.5:     # a different call history in between
